@@ -8,6 +8,7 @@ open Builder
 open State
 open Manager
 open Run
+open Dataflow
 open Driver
 
 module L = Stdlib.List
@@ -249,6 +250,24 @@ let handle (line : string) : unit =
      pr ",\"ready\":"; pi (int_of_nat r.r_ready);
      pr ",\"pending\":"; plist pgate r.r_pending;
      pr ",\"fuel\":"; pbool r.r_fuel;
+     pr "}"
+   | S (A "eval" :: f) ->
+     let nodes = L.map node_ (field "nodes" f) in
+     let input = L.map kv_ (field "input" f) in
+     let (r, log) = eval_case (L.map fst nodes) (L.map snd nodes) input in
+     let pcause = function
+       | CNode (c, i, a) -> pr "[\"x\",\""; pr (cls_name c); pr "\","; pi (int_of_nat i); pr ","; pi (int_of_nat a); pr "]"
+       | COneOf (i, j) -> pr "[\"ee\",\"OneOfDoesNotHaveResultError\"]"
+       | CRec d -> pr "[\"ee\",\"RecurrentSubgraphDoesNotHaveResultError\"]"
+       | CSwitch (i, j) -> pr "[\"ee\",\"SwitchCaseDoesNotHaveBranchError\"]" in
+     let pres = function
+       | ROk v -> pr "[\"ok\","; pval v; pr "]"
+       | RFail cs -> pr "[\"fail\","; plist pcause cs; pr "]" in
+     pr "{\"result\":"; pres r;
+     pr ",\"log\":"; plist (fun x -> pr "{\"node\":"; pi (int_of_nat x.x_node); pr ",\"kw\":"; plist pkv x.x_kw;
+                               pr ",\"attempts\":"; pi (int_of_nat x.x_attempts); pr ",\"default\":"; pbool x.x_default;
+                               pr ",\"result\":"; pres x.x_result; pr "}") log;
+     pr ",\"flags\":"; plist pbool (frag_flags (L.map fst nodes));
      pr "}"
    | S (A "build" :: f) ->
      let nodes = L.map node_ (field "nodes" f) in
